@@ -62,7 +62,11 @@ Record route := {
 Record config := {
   ifaces : list iface;   (* kernel enumeration order *)
   ifaces_err : bool;     (* oracle: interfaceTable fails *)
-  routes : list route;   (* netlink order, main table, IPv4 *)
+  routes : list route;   (* netlink order, main table, IPv4 ONLY: exactly what RouteList(nil, nl.FAMILY_V4)
+                            returns.  IPv6 routes are by definition no part of the configuration; that the code
+                            asks for FAMILY_V4 in GetDefaultInterface / GetDefaultGatewayIP is pinned by the
+                            source tie (Properties/C17Source.v) and exercised by configurations that also have
+                            IPv6 default routes with lower metrics on other interfaces *)
   routes_err : bool }.   (* oracle: RouteList fails *)
 
 Record target := { t_ip : ip; t_mask : ip }.      (* *net.IPNet from ip.ParseIPNet *)
